@@ -90,6 +90,75 @@ let run_codec lines =
      | _ -> failwith ("codec op: " ^ l));
     out_line ".") lines
 
+(* ---------------- actor engines (virtual-time kernel) ---------------- *)
+let sig_name c = match int_of_n c with
+  | 1 -> "nameConfirmed" | 2 -> "hostnameChanged" | 3 -> "serviceAdded" | 4 -> "serviceUpdated"
+  | 5 -> "serviceRemoved" | 6 -> "resolved" | k -> "sig" ^ string_of_int k
+let sig_code = function
+  | "nameConfirmed" -> 1 | "hostnameChanged" -> 2 | "serviceAdded" -> 3 | "serviceUpdated" -> 4
+  | "serviceRemoved" -> 5 | "resolved" -> 6 | s -> failwith ("signal " ^ s)
+let tok_of_payload = function
+  | PNone -> "-" | PBytes b -> tok_of_bstr b | PService s -> tok_of_service s | PAddr a -> tok_of_addr a
+  | PRecord r -> tok_of_record r
+let payload_of_tok code s = match code with
+  | 1 | 2 -> PBytes (bstr_of_tok s) | 3 | 4 | 5 -> PService (service_of_tok s) | 6 -> PAddr (addr_of_tok s)
+  | _ -> PNone
+
+let print_out = function
+  | OSend (t, m) -> out_line (Printf.sprintf "%d SEND %s" (int_of_z t) (tok_of_message m))
+  | OSendAll (t, m) -> out_line (Printf.sprintf "%d SENDALL %s" (int_of_z t) (tok_of_message m))
+  | OSignal (t, ob, sg, p) -> out_line (Printf.sprintf "%d SIG %d %s %s" (int_of_z t) (int_of_n ob) (sig_name sg) (tok_of_payload p))
+  | OPoll (ob, f, b) -> out_line (Printf.sprintf "POLL %d %s %s" (int_of_n ob) (tok_of_bool f) (tok_of_bstr b))
+  | OOutOfFuel -> out_line "OUTOFFUEL"
+let out_of_line l =
+  match words l with
+  | [t; "SEND"; m] -> OSend (z_of_int (int_of_string t), message_of_tok m)
+  | [t; "SENDALL"; m] -> OSendAll (z_of_int (int_of_string t), message_of_tok m)
+  | [t; "SIG"; ob; nm; p] -> let c = sig_code nm in
+    OSignal (z_of_int (int_of_string t), n_of_int (int_of_string ob), n_of_int c, payload_of_tok c p)
+  | ["POLL"; ob; f; b] -> OPoll (n_of_int (int_of_string ob), bool_of_tok f, bstr_of_tok b)
+  | ["OUTOFFUEL"] -> OOutOfFuel
+  | _ -> failwith ("actor output: " ^ l)
+let print_groups gs = List.iter (fun g -> List.iter print_out g; out_line ".") gs
+
+let fuel_actor = nat_of_int 200000
+
+(* common operations; [api] parses the engine-specific ones *)
+let aop_of_line api l =
+  match words l with
+  | ["DELIVER"; m] -> ADeliver (message_of_tok m)
+  | ["ADV"; t] -> AAdv (z_of_int (int_of_string t))
+  | ["ADVB"; t] -> AAdvB (z_of_int (int_of_string t))
+  | ["LATE"; t] -> ALate (z_of_int (int_of_string t))
+  | ws -> AApi (api ws l)
+
+let no_api _ l = failwith ("operation: " ^ l)
+
+(* prober: first line "NEW 0 prober <record>" *)
+let prober_split lines =
+  match lines with
+  | first :: rest ->
+    (match words first with
+     | ["NEW"; _; "prober"; r] -> (record_of_tok r, List.map (aop_of_line no_api) rest)
+     | _ -> failwith "prober script must start with NEW <obj> prober <record>")
+  | [] -> failwith "empty prober script"
+let run_prober lines =
+  let (r, ops) = prober_split lines in
+  print_groups (prober_run fuel_actor r ops); out_line "."
+
+(* monitor trace for actor engines: "> op" / "< output" lines; the first op is the NEW line *)
+let run_mon_prober lines =
+  let tr = group_trace (fun s -> s) out_of_line lines in
+  match tr with
+  | (first, o0) :: rest ->
+    (match words first with
+     | ["NEW"; _; "prober"; r] ->
+       let rest = List.filter (fun (s, _) -> s <> "END") rest in
+       let ops = List.map (fun (s, _) -> aop_of_line no_api s) rest in
+       print_verdict (mon_prober (record_of_tok r) ops (o0 :: List.map snd rest))
+     | _ -> failwith "mon-prober: first operation must be NEW")
+  | [] -> failwith "mon-prober: empty"
+
 (* ---------------- main ---------------- *)
 let engines : (string * (string list -> string list -> unit)) list ref = ref []
 let register name f = engines := (name, f) :: !engines
@@ -97,7 +166,9 @@ let register name f = engines := (name, f) :: !engines
 let () =
   register "cache" (fun _ lines -> run_cache lines);
   register "mon-cache" (fun _ lines -> run_mon_cache lines);
-  register "codec" (fun _ lines -> run_codec lines)
+  register "codec" (fun _ lines -> run_codec lines);
+  register "prober" (fun _ lines -> run_prober lines);
+  register "mon-prober" (fun _ lines -> run_mon_prober lines)
 
 let flush_script hdr lines =
   match hdr with
